@@ -143,7 +143,7 @@ def analyse_power_class(repo: Repo, rep: Report, cname: str, attr: str, factor_a
     ifs = [s for s in fwd.body if isinstance(s, ast.If)]
     disp = ifs[0] if ifs else None
     ok = disp is not None and unparse(disp.test) == "x.dim() > 1 and x.shape[0] > 1"
-    rep.check(ok, "POWER-LAW", fwd, f"batch dispatch: {unparse(disp.test) if disp else '(none)'}", "batched path only for a real batch; everything else is one item", "batch / single-item dispatch changed", node=disp or fwd.node)
+    rep.shape(ok, False, "POWER-LAW", fwd, f"batch dispatch: {unparse(disp.test) if disp else '(none)'}", "batched path only for a real batch; everything else is one item", "batch / single-item dispatch changed", node=disp or fwd.node)
     n += 1
     for cplx in (False, True):
         for zero in (False, True):
@@ -173,7 +173,7 @@ def analyse_power_class(repo: Repo, rep: Report, cname: str, attr: str, factor_a
             n += 1
     # the single-item path is what the non-batched dispatch calls
     calls = [c for c in ast.walk(fwd.node) if isinstance(c, ast.Call) and attr_chain(c.func) == "self._apply_constraint_to_single_item"]
-    rep.check(len(calls) == 1 and unparse(calls[0].args[0]) == "x", "POWER-LAW", fwd, "non-batched input -> self._apply_constraint_to_single_item(x, ...)", "single item handled by the same law", "single-item delegation changed")
+    rep.shape(len(calls) == 1 and unparse(calls[0].args[0]) == "x", False, "POWER-LAW", fwd, "non-batched input -> self._apply_constraint_to_single_item(x, ...)", "single item handled by the same law", "single-item delegation changed")
     return n + 1
 
 
@@ -224,13 +224,13 @@ def rule_peak(repo: Repo, rep: Report) -> int:
             guard = next((a for a in ancestors(r) if isinstance(a, ast.If)), None)
             gt = unparse(guard.test) if guard is not None else ""
             okg = gt in ("torch.max(torch.abs(x)) <= self.max_amplitude", "x.abs().max() <= self.max_amplitude", "torch.abs(x).max() <= self.max_amplitude")
-            rep.check(okg, "PEAK", fi, f"shortcut `return x` under `{gt}`", "input returned unchanged only when |x| is already within the limit", "the input is returned unclipped under a test that does not bound |x| on both sides", node=r)
+            rep.shape(okg, ("abs" not in gt) or (">" in gt and "<=" not in gt and "<" not in gt), "PEAK", fi, f"shortcut `return x` under `{gt}`", "input returned unchanged only when |x| is already within the limit", "the input is returned unclipped under a test that does not bound |x| on both sides", node=r)
         else:
             rep.add("PEAK", fi, f"return {unparse(e)}", s, d or "symmetric clamp to +-max_amplitude from the one configured parameter", node=r)
         n += 1
     init = repo.func(SG, "PeakAmplitudeConstraint.__init__")
     asg = [s for s in stmts_of(init.body) if isinstance(s, ast.Assign) and attr_chain(s.targets[0]) == "self.max_amplitude"]
-    rep.check(len(asg) == 1 and unparse(asg[0].value) == "max_amplitude", "PEAK", init, f"self.max_amplitude = {unparse(asg[0].value) if asg else '?'}", "limit stored unchanged", "the stored limit is not the configured one")
+    rep.shape(len(asg) == 1 and unparse(asg[0].value) in ("max_amplitude", "float(max_amplitude)"), len(asg) == 1 and isinstance(asg[0].value, (ast.BinOp, ast.Constant)), "PEAK", init, f"self.max_amplitude = {unparse(asg[0].value) if asg else '?'}", "limit stored unchanged", "the stored limit is not the configured one")
     return n + 1
 
 
@@ -298,7 +298,7 @@ def rule_papr(repo: Repo, rep: Report) -> int:
     top = guards[0] if guards else st
     idx = fi.body.index(top) if okg else -1
     tail = fi.body[idx + 1 :] if idx >= 0 else []
-    rep.check(len(tail) == 1 and isinstance(tail[0], ast.Return) and unparse(tail[0].value) == "result", "PAPR", fi, "return result directly after the final clip", "nothing modifies the signal after the final clip", "statements between the final clip and the return", node=tail[0] if tail else st)
+    rep.shape(len(tail) == 1 and isinstance(tail[0], ast.Return) and unparse(tail[0].value) == "result", False, "PAPR", fi, "return result directly after the final clip", "nothing modifies the signal after the final clip", "statements between the final clip and the return", node=tail[0] if tail else st)
     n += 1
     if isinstance(val, SV) and val.kind == "dir" and val.m is not None:
         b2 = val.m.pow(2)
@@ -379,7 +379,7 @@ def rule_factories(repo: Repo, rep: Report) -> int:
         fi = repo.func(CU, fname)
         rets = returns_of(fi.node)
         ok = len(rets) == 1 and match(rets[0].value, "CompositeConstraint(constraints)") is not None
-        rep.check(ok, "COMPOSITE-ORDER", fi, f"{fname} returns {unparse(rets[-1].value) if rets else '?'}", "the appended list, in order", "the factory does not return CompositeConstraint(<the list it built>)")
+        rep.shape(ok, False, "COMPOSITE-ORDER", fi, f"{fname} returns {unparse(rets[-1].value) if rets else '?'}", "the appended list, in order", "the factory does not return CompositeConstraint(<the list it built>)")
         n += 1
         seen = set()
         for atoms, stages in factory_configs(fi):
